@@ -31,6 +31,7 @@ CONSTANTS MaxK, MaxB,
           RModes,     \* randomised ones
           Chunks,     \* ways to cut the input into parts
           ImpIdx,     \* which of the fixed keys of a kind are imported
+          WTmpls, UTmpls,  \* CKA_WRAP_TEMPLATE / CKA_UNWRAP_TEMPLATE values in play (names, see TEnc / TKt)
           Acts
 
 LenOf(k) == CASE k = "aes16" -> 16 [] k = "aes32" -> 32 [] k = "des3" -> 24 [] k = "gen16" -> 16 [] k = "gen20" -> 20
@@ -38,16 +39,30 @@ LenOf(k) == CASE k = "aes16" -> 16 [] k = "aes32" -> 32 [] k = "des3" -> 24 [] k
 IsAes(k) == k \in {"aes16", "aes32"}
 Sym(k)   == k \notin {"rsa", "dh", "ec", "ed", "dsa"}
 
-VARIABLES key,   \* [1..MaxK -> [st, kind, v]]   v: index into tbl
-          blob,  \* [1..MaxB -> [st, m, wv, kv, kk, iv, bad]]
+\* ---- CKA_WRAP_TEMPLATE / CKA_UNWRAP_TEMPLATE of a wrapping key.  A template is a set of (attribute, value) entries;
+\* the ones in play constrain CKA_ENCRYPT (a flag every secret key has, an RSA private key has not) and CKA_KEY_TYPE.
+\*   wrap:   a key may be wrapped under w only if it HAS every attribute of w's wrap template with exactly that value
+\*   unwrap: the key that comes out of an unwrap under w carries every entry of w's unwrap template; a caller's
+\*           template that says otherwise is refused (as built: one that is silent about an entry is refused as well)
+AllTmpls == {"none", "empty", "encT", "encF", "ktAes", "ktAesEncF", "ktDes3"}
+TEnc(t) == CASE t = "encT" -> "T" [] t \in {"encF", "ktAesEncF"} -> "F" [] OTHER -> "any"
+TKt(t)  == CASE t \in {"ktAes", "ktAesEncF"} -> "aes" [] t = "ktDes3" -> "des3" [] OTHER -> "any"
+KtOf(kind) == CASE IsAes(kind) -> "aes" [] kind = "des3" -> "des3" [] Sym(kind) -> "gen" [] OTHER -> kind
+EncOf(kind, enc) == IF ~Sym(kind) THEN "absent" ELSE IF enc THEN "T" ELSE "F"
+\* the key (kind, enc) has every entry of template t
+Matches(t, kind, enc) == /\ TEnc(t) \in {"any", EncOf(kind, enc)}
+                         /\ TKt(t) \in {"any", KtOf(kind)}
+
+VARIABLES key,   \* [1..MaxK -> [st, kind, v, enc, wt, ut, by]]   v: index into tbl; by: the key it was unwrapped under
+          blob,  \* [1..MaxB -> [st, m, wv, kv, kk, iv, bad, w, enc]]
           nk, nb,
           tbl,   \* sequence of terms [t, k, a, m, d]
           out    \* expectation for the call: [rv ("OK", "ERR", "ANY"), k, b, v, made (objects created)]
 vars == <<key, blob, nk, nb, tbl, out>>
 View == <<key, blob, nk, nb, tbl>>
 
-NoKey  == [st |-> "none", kind |-> "", v |-> 0]
-NoBlob == [st |-> "none", m |-> "", wv |-> 0, kv |-> 0, kk |-> "", iv |-> 0, bad |-> FALSE]
+NoKey  == [st |-> "none", kind |-> "", v |-> 0, enc |-> TRUE, wt |-> "none", ut |-> "none", by |-> 0]
+NoBlob == [st |-> "none", m |-> "", wv |-> 0, kv |-> 0, kk |-> "", iv |-> 0, bad |-> FALSE, w |-> 0, enc |-> TRUE]
 Term(t, k, a, m, d) == [t |-> t, k |-> k, a |-> a, m |-> m, d |-> d]
 Has(x)  == \E i \in 1 .. Len(tbl) : tbl[i] = x
 Idx(x)  == IF Has(x) THEN CHOOSE i \in 1 .. Len(tbl) : tbl[i] = x ELSE Len(tbl) + 1
@@ -59,12 +74,24 @@ Init == /\ key = [i \in 1 .. MaxK |-> NoKey] /\ blob = [i \in 1 .. MaxB |-> NoBl
 
 Live(i)  == i \in 1 .. nk /\ key[i].st = "live"
 BLive(b) == b \in 1 .. nb /\ blob[b].st = "live"
-NewKey(kind, term) == /\ nk < MaxK /\ nk' = nk + 1 /\ Put(term)
-                      /\ key' = [key EXCEPT ![nk + 1] = [st |-> "live", kind |-> kind, v |-> Idx(term)]]
+NewKeyA(kind, term, enc, wt, ut, by) ==
+                      /\ nk < MaxK /\ nk' = nk + 1 /\ Put(term)
+                      /\ key' = [key EXCEPT ![nk + 1] = [st |-> "live", kind |-> kind, v |-> Idx(term), enc |-> enc, wt |-> wt,
+                                                          ut |-> ut, by |-> by]]
                       /\ out' = Out("OK", nk + 1, 0, Idx(term), 1)
+NewKey(kind, term) == NewKeyA(kind, term, TRUE, "none", "none", 0)
 Fail(rv) == out' = Out(rv, 0, 0, 0, 0) /\ UNCHANGED <<key, nk, tbl>>
 
 MImport(kind, i) == /\ "imp" \in Acts /\ kind \in Kinds /\ i \in ImpIdx /\ NewKey(kind, Term("imp", kind, i, "", 0)) /\ UNCHANGED <<blob, nb>>
+\* a wrapping key (AES, or the RSA pair: the wrap template sits on the public, the unwrap template on the private key) or
+\* a key to be wrapped, imported with CKA_ENCRYPT = enc and the two templates
+MImportT(kind, i, enc, wt, ut) ==
+    /\ "impt" \in Acts /\ kind \in Kinds /\ i \in ImpIdx /\ wt \in WTmpls /\ ut \in UTmpls /\ enc \in BOOLEAN
+    /\ (~Sym(kind) => enc)
+    \* (one template at a time, on a key that is otherwise ordinary: keeps the graphs small)
+    /\ (wt = "none" \/ ut = "none") /\ (wt # "none" \/ ut # "none" => enc)
+    /\ ("two" \in Acts => nk < 2)      \* (a wrapping key and a key to wrap)
+    /\ NewKeyA(kind, Term("imp", kind, i, "", 0), enc, wt, ut, 0) /\ UNCHANGED <<blob, nb>>
 MGenerate(kind)  == /\ "gen" \in Acts /\ kind \in Kinds \ {"rsa", "dh", "ec", "ed", "dsa"}
                     /\ NewKey(kind, Term("gen", kind, nk + 1, "", 0)) /\ UNCHANGED <<blob, nb>>
 
@@ -78,11 +105,11 @@ Randomised(m)    == m \in {"RSA", "OAEP"}
 MWrap(m, w, k, iv) ==
     /\ "wrap" \in Acts /\ m \in WrapMechs /\ Live(w) /\ Live(k) /\ nb < MaxB /\ iv \in (IF m \in {"CBC", "CBCPAD"} THEN {1, 2} ELSE {0})
     /\ UNCHANGED <<key, nk>>
-    /\ IF WrapKeyOK(m, key[w].kind) /\ Wrappable(m, key[k].kind)
+    /\ IF WrapKeyOK(m, key[w].kind) /\ Wrappable(m, key[k].kind) /\ Matches(key[w].wt, key[k].kind, key[k].enc)
        THEN LET term == IF Randomised(m) THEN Term("rblob", m, nb + 1, "", 0) ELSE Term("blob", m, key[w].v, key[k].kind, key[k].v * 10 + iv) IN
             /\ Put(term) /\ nb' = nb + 1
             /\ blob' = [blob EXCEPT ![nb + 1] = [st |-> "live", m |-> m, wv |-> key[w].v, kv |-> key[k].v, kk |-> key[k].kind,
-                                                 iv |-> iv, bad |-> FALSE]]
+                                                 iv |-> iv, bad |-> FALSE, w |-> w, enc |-> key[k].enc]]
             /\ out' = Out("OK", 0, nb + 1, Idx(term), 0)
        ELSE out' = Out("ERR", 0, 0, 0, 0) /\ UNCHANGED <<blob, nb, tbl>>
 
@@ -94,19 +121,33 @@ Integrity(m) == m \in {"KW", "KWP", "OAEP"}
 \* the unwrapping key fits: the same AES key value, or the RSA key (there is one pair)
 Fits(m, w, b) == m = blob[b].m /\ (IF Randomised(m) THEN key[w].kind = "rsa" ELSE IsAes(key[w].kind) /\ key[w].v = blob[b].wv)
 UnwrappedKind(m, kk) == IF m = "KW" /\ LenOf(kk) % 8 # 0 THEN "gen24" ELSE kk
-MUnwrap(m, w, b) ==
+\* e: what the caller's template says about CKA_ENCRYPT ("T", "F", or "absent": silent)
+UnwrapE(m, w, b, e) ==
     \* (the library offers CKM_AES_CBC for wrapping only; what it wrapped is judged by the reference)
-    /\ "unwrap" \in Acts /\ m \in WrapMechs \ {"CBC"} /\ Live(w) /\ BLive(b) /\ UNCHANGED <<blob, nb>>
-    /\ IF ~WrapKeyOK(m, key[w].kind) THEN Fail("ERR")
+    /\ m \in WrapMechs \ {"CBC"} /\ Live(w) /\ BLive(b) /\ UNCHANGED <<blob, nb>>
+    /\ (~Sym(blob[b].kk) => e = "absent")
+    /\ LET kk == UnwrappedKind(m, blob[b].kk)
+           ut == key[w].ut
+           enc == IF e = "absent" THEN (TEnc(ut) # "F") ELSE e = "T"       \* (CKA_ENCRYPT defaults to true)
+           term == IF kk = blob[b].kk THEN tbl[blob[b].kv] ELSE Term("pad8", kk, blob[b].kv, "", 0) IN
+       IF ~WrapKeyOK(m, key[w].kind) THEN Fail("ERR")
+       \* the caller's template contradicts the unwrap template of w
+       ELSE IF TKt(ut) \notin {"any", KtOf(kk)} \/ (e # "absent" /\ TEnc(ut) \notin {"any", e}) THEN Fail("ERR")
+       \* an RSA private key has no CKA_ENCRYPT: an unwrap template that demands one cannot be satisfied
+       ELSE IF ~Sym(kk) /\ TEnc(ut) # "any" THEN Fail("ERR")
+       \* ... is silent about an entry: refused (as built), or the entry is applied (PKCS#11)
+       ELSE IF e = "absent" /\ TEnc(ut) # "any"
+       THEN \/ Fail("ERR")
+            \/ Fits(m, w, b) /\ ~blob[b].bad /\ NewKeyA(kk, term, enc, "none", "none", w)
        ELSE IF Fits(m, w, b) /\ ~blob[b].bad
-       THEN LET kk == UnwrappedKind(m, blob[b].kk)
-                term == IF kk = blob[b].kk THEN tbl[blob[b].kv] ELSE Term("pad8", kk, blob[b].kv, "", 0) IN
-            NewKey(kk, term)
+       THEN NewKeyA(kk, term, enc, "none", "none", w)
        \* wrong key, wrong mechanism or damaged blob: an integrity-protected mechanism rejects it, nothing is created
        ELSE IF Integrity(m) THEN Fail("ERR")
        \* no integrity protection (CBC, PKCS#1 v1.5): rejected, or a key with some other value comes out
        ELSE \/ Fail("ERR")
-            \/ nk < MaxK /\ NewKey(blob[b].kk, Term("junk", blob[b].kk, nk + 1, m, b))
+            \/ nk < MaxK /\ NewKeyA(blob[b].kk, Term("junk", blob[b].kk, nk + 1, m, b), enc, "none", "none", w)
+MUnwrap(m, w, b) == "unwrap" \in Acts /\ UnwrapE(m, w, b, IF Sym(blob[b].kk) THEN "T" ELSE "absent")
+MUnwrapT(m, w, b, e) == "unwrapt" \in Acts /\ e \in {"T", "F", "absent"} /\ UnwrapE(m, w, b, e)
 
 \* a blob is unwrapped with a template of the other object class (a secret as an RSA private key, a private key as a
 \* secret): the key material cannot be installed; the call fails and nothing may be left behind
@@ -179,10 +220,12 @@ AllModes == {"aes-ecb", "aes-cbc", "aes-cbcpad", "aes-ctr", "aes-gcm", "aes-cmac
              "eddsa"}
 AllR     == {"sha256-rsa-pss", "rsa-oaep", "rsa-pkcs-enc", "ecdsa", "dsa-sha256"}
 Next == \/ \E kind \in AllKinds, i \in 1 .. 2 : MImport(kind, i)
+        \/ \E kind \in AllKinds, i \in 1 .. 2, enc \in BOOLEAN, wt \in AllTmpls, ut \in AllTmpls : MImportT(kind, i, enc, wt, ut)
         \/ \E kind \in AllKinds : MGenerate(kind)
         \/ \E m \in AllWrap, w \in KS, k \in KS, iv \in 0 .. 2 : MWrap(m, w, k, iv)
         \/ \E b \in BS, how \in {"flip", "cut"} : MDamage(b, how)
         \/ \E m \in AllWrap, w \in KS, b \in BS : MUnwrap(m, w, b)
+        \/ \E m \in AllWrap, w \in KS, b \in BS, e \in {"T", "F", "absent"} : MUnwrapT(m, w, b, e)
         \/ \E m \in AllWrap, w \in KS, b \in BS : MUnwrapAs(m, w, b)
         \/ \E m \in AllDer, base \in KS, d \in 1 .. 3, kind \in AllKinds : MDerive(m, base, d, kind)
         \/ \E k \in KS : MValue(k)
@@ -195,4 +238,8 @@ TypeOK == nk \in 0 .. MaxK /\ nb \in 0 .. MaxB /\ \A i \in 1 .. nk : key[i].v \i
 \* a key that came out of an unwrap has the value that went into the wrap (or its padding): Unwrap(Wrap(k)) = k
 UnwrapIsInverse == \A b \in 1 .. nb : \A i \in 1 .. nk :
     (tbl[key[i].v].t = "pad8" /\ tbl[key[i].v].a = blob[b].kv) => LenOf(blob[b].kk) % 8 # 0
+\* the templates are honoured: nothing was ever wrapped under a key whose wrap template it did not match, and every
+\* key that came out of an unwrap carries the entries of the unwrap template of the key it was unwrapped under
+WrapTemplateHonoured   == \A b \in 1 .. nb : blob[b].st = "live" => Matches(key[blob[b].w].wt, blob[b].kk, blob[b].enc)
+UnwrapTemplateHonoured == \A i \in 1 .. nk : key[i].by # 0 => Matches(key[key[i].by].ut, key[i].kind, key[i].enc)
 =============================================================================
